@@ -37,6 +37,16 @@ def run(ctx):
             continue        # the refusal is deterministic; one run per path
         items2.append(("art-build", dict(mode=b["mode"], depth=b["depth"], batch=b["batch"], path=b["path"], cli=cli, dir=ctx.scratch), b["procs"]))
     recs = first + artlib.execute(ctx, items2, nproc=8)
+    # repeated compilations inside ONE process, several dimensions in sequence (incl. dimensions whose decimal digits concatenate
+    # alike, and a refused one in the middle), each compared with a fresh-process build of the same dimensions
+    seqs = [[["deletion", 1, 11], ["deletion", 11, 1], ["deletion", 2, 1], ["deletion", 32, 1], ["deletion", 1, 1], ["deletion", 1, 11]]]
+    if not ctx.quick:
+        seqs += [[["insertion", 1, 11], ["insertion", 11, 1], ["insertion", 1, 12], ["insertion", 11, 2], ["insertion", 2, 2]],
+                 [["deletion", 2, 13], ["deletion", 21, 3], ["deletion", 3, 2], ["insertion", 3, 2], ["deletion", 3, 2], ["deletion", 12, 1], ["deletion", 1, 21]]]
+    fresh = sorted(set(tuple(d) for sq in seqs for d in sq) - set(tuple(d) for d in dims + guard))
+    recs += artlib.execute(ctx, [("art-build", dict(mode=m, depth=d, batch=b, path="r1cs", cli=cli, dir=ctx.scratch), 16) for m, d, b in fresh], nproc=8)
+    for sq in seqs:
+        recs += ctx.run_vh(["art-build-seq"], dict(dims=sq), timeout=3000)
     # the exported Solidity verifier of each set-up system expects exactly one public input
     import os
     sol = [("art-solidity", dict(cli=cli, keys=os.path.join(ctx.scratch, "ps-%s-%d-%d.ps" % (m, d, b)), mode=m), 0) for m, d, b in setup_dims]
